@@ -134,7 +134,7 @@ def rule_op_level(ctx: RuleContext, p: Program, rid: str) -> None:
     ctx.check(ok, rid, 'models.number_expr:_wrap_paren', f'{calls}', f'_wrap_paren inserts {calls}; expected "(" before first_token and ")" after last_token',
               wp.where)
     fv = p.func('models.number_expr', '_add_expr_from_value')
-    ok = any(isinstance(c, ast.Call) and norm(c.func) == 'abs' for c in walk_no_nested(fv.node)) and \
+    ok = any(isinstance(c, ast.Call) and (norm(c.func) == 'abs' or (isinstance(c.func, ast.Attribute) and c.func.attr == 'copy_abs')) for c in walk_no_nested(fv.node)) and \
         any(isinstance(i, ast.If) and norm(i.test) == f'{fv.params[0]} < 0' for i in walk_no_nested(fv.node)) and \
         any(isinstance(c, ast.Call) and norm(c.func) == 'UnaryOp.from_raw_text' and norm(c.args[0]) == "'-'" for c in walk_no_nested(fv.node))
     ctx.check(ok, rid, 'models.number_expr:_add_expr_from_value', 'abs + unary minus for negatives',
@@ -186,5 +186,6 @@ def run(ctx: RuleContext, p: Program) -> None:
     ctx.try_rule(rule_op_own, p, 'OP-OWN')
     from . import round4
     ctx.try_rule(round4.rule_set_covers, p, 'SET-COVERS')
+    ctx.try_rule(round4.rule_dec_exact, p, 'DEC-EXACT')
     ctx.not_decided += ['decimal arithmetic results', 'precedence / associativity of parsed trees (grammar)', 're-parse of printed results']
     ctx.assumptions += ['primitive models of the effect interpreter (see C19)', 'lark grammar compiled as for the repository']
